@@ -411,6 +411,23 @@ theorem cli_positional (s : J) (c : RoutineSet) (hs : settingsShape s = true) (h
         rw [hoffs]
         exact posOf_seq_self _ p hb.1 hb.2
 
+/-- `cli_build_positional` / `cli_positional` make no assumption on where the offsets start: the SsbScript compiler numbers
+ops from 0 (ExplorerScript from 1).  Its output for the SsbScript source
+`def 0 { §top; WaitFrames(1); BranchBit($FLAG, 3, @done); Jump(@top); §done; Return(); } def 1 for_actor(3) { Call(@top); Hold(); }`:
+the jump and the call to the very first op (offset 0) are printed as position 1. -/
+def ssbsSet : RoutineSet :=
+  ⟨[⟨.generic, 0, none⟩, ⟨.actor, 3, none⟩],
+   [[⟨0, "WaitFrames", [.int 1]⟩, ⟨1, "BranchBit", [.const "$FLAG", .int 3, .int 3]⟩, ⟨2, "Jump", [.int 0]⟩, ⟨3, "Return", []⟩],
+    [⟨4, "Call", [.int 0]⟩, ⟨5, "Hold", []⟩]],
+   [none, none]⟩
+
+theorem cli_offsets_from_zero_example :
+    closedB ssbsSet = true ∧ posOf ssbsSet.offsets 0 = some 1 ∧
+    (remap ssbsSet).ops =
+      [[⟨0, "WaitFrames", [.int 1]⟩, ⟨1, "BranchBit", [.const "$FLAG", .int 3, .int 4]⟩, ⟨2, "Jump", [.int 1]⟩, ⟨3, "Return", []⟩],
+       [⟨4, "Call", [.int 1]⟩, ⟨5, "Hold", []⟩]] := by
+  decide +kernel
+
 /-- the position table changes nothing where the jump parameters already are positions -/
 theorem cli_conservative (s : J) (c : RoutineSet) (hp : Positional c) : buildJson s c = buildJsonRaw s c := by
   have : remap c = c := by
